@@ -30,12 +30,12 @@ ASSUMPTIONS = [
     "steps must raise LenaValueError at construction; integral floats such as 2.0 are outside the alphabet",
     "fill_into is checked for non-negative arguments only (negative ones are documented as unsupported)",
 ]
-NONTRIVIAL_FLOOR = {"quick": 5000, "thorough": 50000}
+NONTRIVIAL_FLOOR = {"quick": 5000, "thorough": 500000}
 
 
 def _dom(tier):
     if tier == "thorough":
-        return dict(B=12, S=6, L=22, H=8, LF=10)
+        return dict(B=26, S=10, L=52, H=10, LF=12)
     return dict(B=7, S=4, L=10, H=6, LF=7)
 
 
